@@ -341,7 +341,53 @@ def stage_e2e(ctx):
                        "tails": [x.decode() for x in E2E_TAILS]}
 
 
-STAGES = [stage_unescape, stage_appendparam, stage_scanquoted, stage_e2e]
+E2E_BYTE_SLOTS = [b"JSIGHT 0.3\nINFO\n  Title {V}\n", b"JSIGHT 0.3\nINFO\n  Title \"t\"\n  Version {V}\n", b"JSIGHT 0.3\nGET /p{V}\n  200 any\n",
+                  b"JSIGHT 0.3\nURL /r\n  Protocol json-rpc-2.0\n  Method {V}\n", b"JSIGHT 0.3\nSERVER @s\n  BaseUrl {V}\n",
+                  b"JSIGHT 0.3\nGET /c\n  Query {V}\n    {}\n  200 any\n"]
+E2E_LETTERS = [b"\xc3\xa0", b"\xc3\x85", b"\xd0\xa0", b"\xd1\x85", b"\xe8\x80\x85", b"\xc2\xa0", b"\xc2\x85", b"\xe2\x80\xa8", b"\xe3\x80\x80",
+               b"\xe2\x80\x83", b"\xef\xbb\xbf", b"\xf0\x9f\x90\x88"]
+
+
+def stage_e2e_bytes(ctx):
+    """a value that needs no quotes means the same with or without them, for EVERY byte a bare value can hold: `a<b>z`
+    for each single byte b (but the blanks, line ends, NUL, '"', '\\' and '#', which end or change a bare value) and for
+    letters whose UTF-8 form holds the bytes 0x85 / 0xA0 / 0x80 (Unicode blanks when taken for code points), at the
+    start, in the middle and at the end of the value, in every free-text slot"""
+    if ctx.replay is not None and ctx.replay.get("stage") != "e2e-bytes":
+        return
+    from .. import proj as P
+    excluded = {0x00, 0x09, 0x0A, 0x0D, 0x20, 0x22, 0x23, 0x5C}
+    mids = [bytes([b]) for b in range(1, 256) if b not in excluded] + E2E_LETTERS
+    cases = []
+    for tpl in E2E_BYTE_SLOTS:
+        for m in mids:
+            for v in (b"a" + m + b"z", m + b"z", b"a" + m):
+                if tpl.startswith(b"JSIGHT 0.3\nGET /p") :
+                    pass
+                bare = tpl.replace(b"{V}", v)
+                quoted = tpl.replace(b"{V}", DQ + v + DQ) if b"/p{V}" not in tpl else tpl.replace(b"/p{V}", DQ + b"/p" + v + DQ)
+                cases.append((bare, quoted, v))
+    docs = sorted({c for c, _, _ in cases} | {d for _, d, _ in cases})
+    outs = dict(zip(docs, C.run_sharded("harness", "fn", [P.run_line("out=sha", [("a.jst", d)]) for d in docs])))
+    ctx.res.count(len(docs))
+    n_ok = n_rej = 0
+    for bare, quoted, v in cases:
+        sa, da = P.parse(outs[bare])
+        sb, db = P.parse(outs[quoted])
+        if sb == "ok":
+            n_ok += 1
+            ctx.res.nontrivial(("e2e-bytes", bare))
+        else:
+            n_rej += 1
+        if sa != sb or (sa == "ok" and da.get("sha") != db.get("sha")):
+            ctx.spec_bad.append(("e2e-bytes", bare, "the value %r means one thing bare and another in quotes: bare %s, quoted %s" % (
+                v, outs[bare][:90] if sa != "ok" else "accepted", outs[quoted][:90] if sb != "ok" else ("accepted" + (" with a different catalog" if sa == "ok" else ""))),
+                "same catalog", outs[bare][:120], "unescape_quote (end to end)"))
+    ctx.dist["e2e-bytes"] = {"documents": len(docs), "pairs": len(cases), "accepted": n_ok, "rejected_in_both_spellings": n_rej, "slots": len(E2E_BYTE_SLOTS),
+                             "values": "a<b>z, <b>z, a<b> for every byte b outside {NUL, TAB, LF, CR, space, '\"', '#', '\\'} and %d multi-byte letters" % len(E2E_LETTERS)}
+
+
+STAGES = [stage_unescape, stage_appendparam, stage_scanquoted, stage_e2e, stage_e2e_bytes]
 
 
 def run(res, tier, seed, replay):
